@@ -79,5 +79,6 @@ pub fn registry() -> Vec<ScenarioDef> {
         ScenarioDef { property: "C13", name: "c13/deframe", run: c13::run, quick_cases: 200_000, thorough_cases: 12_000_000, needs_tls: false },
         ScenarioDef { property: "C14", name: "c14/tpkt_write", run: c14::run_tpkt, quick_cases: 60_000, thorough_cases: 8_000_000, needs_tls: false },
         ScenarioDef { property: "C14", name: "c14/link_write", run: c14::run_link, quick_cases: 40_000, thorough_cases: 6_000_000, needs_tls: false },
+        ScenarioDef { property: "C14", name: "c14/tls_write", run: c14::run_tls, quick_cases: 6_000, thorough_cases: 400_000, needs_tls: true },
     ]
 }
